@@ -13,6 +13,17 @@ CHECKS = {
         note="Trusted: Go uint is 64-bit with set-like |,&,<<,>>; the transcription of the loop bodies (bound by replay and trace records); TLC."),
 }
 
+CHECKS["C02"] = dict(
+    category="model_checking", design_ref="DESIGN.md §7 C02",
+    technique="TLA+ routing oracle (Grid!Route, exact half-open clip) enumerated by TLC over every lattice segment of a pixel window x hot sets; each TLC vector replayed into PointIndex.SnapClosestPoints at several quadtree placements/levels; random real-code records validated by TLC against the same oracle",
+    text="The specification defines 'closed edge meets half-open pixel' and the order of travel exactly (cross-multiplied integer fractions) and is itself cross-checked by TLC against a brute-force definition on a refined lattice. TLC enumerates every segment of the window (every tie case: endpoint on border/corner, edge along a border, edge through a corner) with several hot sets; each is replayed through the real index at 4-12 placements (different depth, origin, tile width, level, alignment to the quadtree centre and corners), and random records from larger windows are validated by TLC.",
+    note="Trusted: TLC; synthetic dyadic grids convert exactly (asserted per coordinate); the non-collapsing-polygon sentence is decided by the Snap trace specification.")
+CHECKS["C09"] = dict(
+    category="model_checking", design_ref="DESIGN.md §7 C09",
+    technique="TLA+ half-open grid predicate (Grid!InGrid/Outcome); TLC enumerates every lattice point in a 2-pixel band around all borders x vertex position x ignore flag; each vector replayed into SnapPolygon and InsertPoint on synthetic and built-in grids",
+    text="Exhaustive at the border: every quarter-pixel lattice point from two pixels outside to two pixels inside each border and corner is replayed, measured from the nearest border, on synthetic grids (zero, negative and positive origin, both corner conventions, tile widths 1..256) and on NetherlandsRDNewQuad / WebMercatorQuad / NZTM2000Quad; the observed outcome (snapped / empty / OutsideGridError panic / error of InsertPoint) must equal the specified one.",
+    note="Trusted: TLC; float inputs are checked to convert to the intended 1e-10 integer (else skipped and counted); 'inside implies snapped' is asserted only on grids that divide evenly.")
+
 NOT_YET = {}
 
 ALL = ["C%02d" % i for i in range(1, 19)]
